@@ -34,6 +34,7 @@ type c18Event struct {
 	Shared bool   `json:"shared"`              // use the history's shared parsed tree / decoder / evaluator / printer
 	Out    string `json:"out,omitempty"`       // output format (default yaml)
 	Hist   bool   `json:"hist_only,omitempty"` // quick tier: used in histories only, not in the schedule exploration
+	NoPre  bool   `json:"no_header_preprocess,omitempty"` // the decoder is made with LeadingContentPreProcessing off (--header-preprocess=false)
 }
 
 func c18Alphabet() []c18Event {
@@ -82,6 +83,14 @@ func c18Alphabet() []c18Event {
 		{Name: "line-comment-update", Expr: `.a line_comment |= "n"`, Doc: "a: x\n", Hist: true},
 		{Name: "anchor-assign", Expr: ".a anchor = .s", Doc: "a: x\ns: k\n", Hist: true},
 		{Name: "anchor-update", Expr: `.a anchor |= "m"`, Doc: "a: x\n", Hist: true},
+		// a literal that is produced after a step that yields nothing, then updated in place
+		{Name: "literal-after-empty-step", Expr: ".x[] | 5 | . += 1", Doc: "x: []\n", Hist: true},
+		{Name: "string-literal-after-empty-step", Expr: `.x[] | "s" | . += "t"`, Doc: "x: []\n", Hist: true},
+		// decoders that leave the header to the parser
+		{Name: "comment-only-doc/no-preprocess", Expr: ".", Doc: "# only a comment\n", Hist: true, NoPre: true},
+		{Name: "identity-comments/no-preprocess", Expr: ".", Doc: "# lead\na: 1 # c\n", Hist: true, NoPre: true},
+		{Name: "plain-map/no-preprocess", Expr: ".", Doc: "a: 1\n", Hist: true, NoPre: true},
+		{Name: "explicit-start/no-preprocess", Expr: ".a", Doc: "---\na: 1\n", Hist: true, NoPre: true},
 	}
 	return base
 }
@@ -94,6 +103,7 @@ var c18Files = map[string]string{
 type c18Shared struct {
 	trees   map[string]*yqlib.ExpressionNode
 	decoder yqlib.Decoder
+	noPre   yqlib.Decoder
 	eval    yqlib.StreamEvaluator
 	printer map[string]yqlib.Printer
 	buf     map[string]*bytes.Buffer
@@ -149,6 +159,14 @@ func c18RunEvent(ev c18Event, sh *c18Shared) (out string) {
 			sh.eval = yqlib.NewStreamEvaluator()
 		}
 		dec, ev2 = sh.decoder, sh.eval
+		if ev.NoPre {
+			if sh.noPre == nil {
+				p := impl.YamlPrefs()
+				p.LeadingContentPreProcessing = false
+				sh.noPre = yqlib.NewYamlDecoder(p)
+			}
+			dec = sh.noPre
+		}
 		if sh.printer[ev.Out] == nil {
 			sh.buf[ev.Out] = &bytes.Buffer{}
 			sh.printer[ev.Out] = yqlib.NewPrinter(c18Encoder(ev.Out), yqlib.NewSinglePrinterWriter(sh.buf[ev.Out]))
@@ -157,6 +175,11 @@ func c18RunEvent(ev c18Event, sh *c18Shared) (out string) {
 		buf.Reset()
 	} else {
 		dec = yqlib.NewYamlDecoder(impl.YamlPrefs())
+		if ev.NoPre {
+			p := impl.YamlPrefs()
+			p.LeadingContentPreProcessing = false
+			dec = yqlib.NewYamlDecoder(p)
+		}
 		ev2 = yqlib.NewStreamEvaluator()
 		buf = &bytes.Buffer{}
 		pr = yqlib.NewPrinter(c18Encoder(ev.Out), yqlib.NewSinglePrinterWriter(buf))
@@ -797,7 +820,7 @@ func init() {
 	registerLater(func() {
 		fw.Register(&fw.Check{
 			ID: "C18", Level: "model_checking",
-			Rule: "(A) explicit-state over histories: every pair of 84 evaluation events (42 events built around each piece of state that outlives an evaluation - operator descriptors rewritten by the lexer, decoder singletons inside lexer rules, literals owned by a parsed tree, handlers that write into the tree, anchor maps, printer and decoder position state, every encoder behind a reused printer, both assignment forms of the assignable operators - x {fresh, shared library objects}), every revisit A,B,A where A reuses the objects it retained, and every triple over the core events, each history in a fresh process; every event must yield the bytes it yields first in a fresh process (modulo the document separator of a reused printer). " +
+			Rule: "(A) explicit-state over histories: every pair of 96 evaluation events (48 events built around each piece of state that outlives an evaluation - operator descriptors rewritten by the lexer, decoder singletons inside lexer rules, literals owned by a parsed tree, handlers that write into the tree, anchor maps, printer and decoder position state, every encoder behind a reused printer, both assignment forms of the assignable operators - x {fresh, shared library objects}), every revisit A,B,A where A reuses the objects it retained, and every triple over the core events, each history in a fresh process; every event must yield the bytes it yields first in a fresh process (modulo the document separator of a reused printer). " +
 				"(B) stateless schedule exploration: two evaluations on separate objects under a cooperative scheduler that owns all yield hooks; DFS over every choice sequence within the pre-emption bound; each thread must return its solo bytes; replay divergence is an error. (C) auxiliary sampled race-detector pass. states = histories, transitions = schedule points; non-trivial = distinct history or thread pair",
 			Assumptions: []string{"interleavings are exhaustive at the granularity of the hooked accesses (appendix B); unsynchronised accesses elsewhere are only caught by the sampled race pass", "now/shuffle/env operators excluded as the statement excludes them"},
 			Budget: func(t string) time.Duration {
